@@ -262,12 +262,12 @@ func c06run(sn c06scn) (res c06res) {
 	}
 	s.PollEvent()
 	_, evCap, _, keyCap := levels()
-	if sn.Kind == "starterr" {
+	if sn.Kind == "starterr" || sn.Kind == "inwindow" {
 		// EvFill only selects the variant
 	} else if sn.EvFill > evCap && sn.Kind != "racefill" {
 		sn.EvFill = evCap
 	}
-	for i := 0; i < sn.EvFill && sn.Kind != "racefill" && sn.Kind != "starterr"; i++ {
+	for i := 0; i < sn.EvFill && sn.Kind != "racefill" && sn.Kind != "starterr" && sn.Kind != "inwindow"; i++ {
 		if err := s.PostEvent(tcell.NewEventInterrupt(i)); err != nil {
 			return incon("could not fill the event queue")
 		}
@@ -592,6 +592,65 @@ func c06run(sn c06scn) (res c06res) {
 	}
 
 	switch sn.Kind {
+	case "inwindow":
+		// a second application goroutine calls Resume / Suspend / Fini while a Suspend is in its
+		// unlocked window (between closing the stop channel and restoring the terminal): every
+		// call returns, in whatever order the library serializes them
+		other := []string{"Resume", "Suspend", "Fini", "Resume+Show"}[sn.EvFill%4]
+		otherDone := make(chan struct{})
+		var otherPanic any
+		fired := false
+		ft.OnNotifyNil = func() {
+			if fired {
+				return
+			}
+			fired = true
+			go func() {
+				defer close(otherDone)
+				defer func() { otherPanic = recover() }()
+				switch other {
+				case "Resume":
+					_ = s.Resume()
+				case "Suspend":
+					_ = s.Suspend()
+				case "Fini":
+					ft.BeginFini()
+					s.Fini()
+				case "Resume+Show":
+					_ = s.Resume()
+					s.Show()
+				}
+			}()
+			// give the other call time to get as far as it can (done, or parked on a lock)
+			for i := 0; i < 3000; i++ {
+				select {
+				case <-otherDone:
+					return
+				default:
+					runtime.Gosched()
+				}
+			}
+		}
+		if cat, w := shutdown("suspend"); cat != "" {
+			if cat == "inconclusive" {
+				return incon("Suspend: " + w)
+			}
+			return fail(cat, fmt.Sprintf("Suspend with a concurrent %s from another goroutine in its unlocked window: %s", other, w), true)
+		}
+		if !fired {
+			return incon("the shutdown window hook did not fire")
+		}
+		if cat, w := waitOrClassify(otherDone, sc); cat != "" {
+			if cat == "inconclusive" {
+				return incon("concurrent " + other + ": " + w)
+			}
+			return fail(cat+"@concurrent-"+other, fmt.Sprintf("%s called from another goroutine during a Suspend did not return: %s", other, w), true)
+		}
+		if otherPanic != nil {
+			return fail("panic:concurrent-"+other, fmt.Sprintf("%s called from another goroutine during a Suspend panicked: %v", other, otherPanic), true)
+		}
+		ft.OnNotifyNil = nil
+		return finalFini()
 	case "starterr":
 		// the terminal cannot be taken over again (Tty.Start fails once at Resume): Resume
 		// reports it, a later Resume succeeds, input flows again, and the shutdown returns
@@ -850,6 +909,9 @@ func c06scenarios(r *core.Run) []c06scn {
 			add(c06scn{Kind: k, KeyFill: -1, Reader: "read", Conc: "none", Stall: true})
 			add(c06scn{Kind: k, KeyFill: -1, Reader: "read", Conc: "flood", Sched: int64(rep)})
 		}
+	}
+	for i := 0; i < r.Pick(8, 40); i++ {
+		add(c06scn{Kind: "inwindow", EvFill: i, KeyFill: -1, Reader: "read", Conc: "none", DrainNil: i%3 == 1})
 	}
 	for i := 0; i < 6; i++ {
 		add(c06scn{Kind: "starterr", EvFill: i, KeyFill: -1, Reader: "read", Conc: "none", DrainNil: i%2 == 1})
